@@ -95,3 +95,27 @@ def c09(run, replay):
              "through RPCServer.HandleRequest, real HTTP and WebSocket frames; distinct = distinct abstract rows",
         sig=lambda t: "row %s" % json.dumps(t["row"], sort_keys=True),
         mc_timeout=1200, trace_timeout=1800, harness_timeout=1800)
+
+
+# --------------------------------------------------------------------------------------------- C10
+@check("C10")
+def c10(run, replay):
+    run.assumptions += [
+        "hostile input = every single frame of the Builtins.tla grammar (605 frame shapes) sent to a real server by a raw WebSocket "
+        "client and to a real client by a fake server, plus a seeded TLC sample of two-frame sequences; endpoints are hosted in a child process",
+        "absence of an effect is judged after a probe call has round-tripped on the same connection (frames are executed in order)",
+        "WebSocket-level protocol violations (RSV bit, reserved opcode, malformed close, fragmented control frame) may close the connection",
+    ]
+    thorough = run.tier == "thorough"
+    wd = run.dir("work")
+    _cfg_with(run, wd, "BuiltinsMC.cfg", "BuiltinsRun.cfg", [("NPairs = 6", "NPairs = %d" % (24 if thorough else 6))])
+    # non-vacuity: without the guards the model itself reaches a crash state
+    nog = run.tlc(wd, "BuiltinsMC.tla", "BuiltinsMC_noguards.cfg", timeout=600, tag="model_runs")
+    if nog["violated"] != "NeverCrashes":
+        raise vp.ToolFailure("self-test: unguarded Builtins model should violate NeverCrashes, got %s" % nog["violated"])
+    vp.table_check(
+        run, "BuiltinsMC", "BuiltinsTrace", "c10", mc_cfg="BuiltinsRun.cfg",
+        rule="rows of Builtins.tla: hostile frame (sequence) x role {server, client} with a live call / stream / in-flight request, "
+             "and HTTP body sizes around each limit x padding kind; distinct = distinct abstract rows",
+        sig=lambda t: "row %s" % json.dumps(t["row"], sort_keys=True),
+        mc_timeout=1200, trace_timeout=1800, harness_timeout=3000)
